@@ -764,6 +764,69 @@ func (g *ownGen) loopStmt(e *genv, ind int) {
 	}
 }
 
+// selfPrelude replaces the import of Duden/Ausgabe: the program declares the extern output functions itself, so it
+// consists of one module and can be compiled with --module-linken=false as well.
+const selfPrelude = `Die Funktion Schreibe_Zahl mit dem Parameter p1 vom Typ Zahl, gibt nichts zurück,
+ist in "libddpstdlib.a" definiert
+und kann so benutzt werden:
+	"Drucke <p1>"
+
+Die Funktion Schreibe_Text mit dem Parameter p1 vom Typ Text, gibt nichts zurück,
+ist in "libddpstdlib.a" definiert
+und kann so benutzt werden:
+	"Drucke <p1>"
+
+Die Funktion Schreibe_Buchstabe mit dem Parameter p1 vom Typ Buchstabe, gibt nichts zurück,
+ist in "libddpstdlib.a" definiert
+und kann so benutzt werden:
+	"Drucke <p1>"
+
+Die Funktion Schreibe_Wahrheitswert mit dem Parameter p1 vom Typ Wahrheitswert, gibt nichts zurück,
+ist in "libddpstdlib.a" definiert
+und kann so benutzt werden:
+	"Drucke <p1>"
+
+Die Funktion SZ_Zahl mit dem Parameter p1 vom Typ Zahl, gibt nichts zurück, macht:
+	Drucke p1.
+	Drucke '\n'.
+Und kann so benutzt werden:
+	"Schreibe <p1> auf eine Zeile"
+
+Die Funktion SZ_Text mit dem Parameter p1 vom Typ Text, gibt nichts zurück, macht:
+	Drucke p1.
+	Drucke '\n'.
+Und kann so benutzt werden:
+	"Schreibe <p1> auf eine Zeile"
+
+Die Funktion SZ_Buchstabe mit dem Parameter p1 vom Typ Buchstabe, gibt nichts zurück, macht:
+	Drucke p1.
+	Drucke '\n'.
+Und kann so benutzt werden:
+	"Schreibe <p1> auf eine Zeile"
+
+Die Funktion SZ_Wahrheitswert mit dem Parameter p1 vom Typ Wahrheitswert, gibt nichts zurück, macht:
+	Drucke p1.
+	Drucke '\n'.
+Und kann so benutzt werden:
+	"Schreibe <p1> auf eine Zeile"
+
+Die Funktion SZ_Zahlen_Liste mit dem Parameter p1 vom Typ Zahlen Liste, gibt nichts zurück, macht:
+	Für jede Zahl element in p1, mache:
+		Drucke element.
+		Drucke ' '.
+	Drucke '\n'.
+Und kann so benutzt werden:
+	"Schreibe <p1> auf eine Zeile"
+
+Die Funktion SZ_Text_Liste mit dem Parameter p1 vom Typ Text Liste, gibt nichts zurück, macht:
+	Für jeden Text element in p1, mache:
+		Drucke element.
+		Drucke ' '.
+	Drucke '\n'.
+Und kann so benutzt werden:
+	"Schreibe <p1> auf eine Zeile"
+`
+
 const ownPrelude = `Binde "Duden/Ausgabe" ein.
 
 Wir nennen die Kombination aus
@@ -778,8 +841,17 @@ ein Paar, und erstellen sie so:
 `
 
 func genOwnProgram(r *prng.R, idx int, avoidAlias bool) *HProg {
+	return genOwnProgramOpt(r, idx, avoidAlias, false)
+}
+
+func genOwnProgramOpt(r *prng.R, idx int, avoidAlias, selfContained bool) *HProg {
 	g := &ownGen{r: r, roles: map[string]bool{}, avoidAlias: avoidAlias}
-	g.b.WriteString(ownPrelude)
+	if selfContained {
+		g.b.WriteString(selfPrelude)
+		g.b.WriteString(strings.TrimPrefix(ownPrelude, "Binde \"Duden/Ausgabe\" ein.\n"))
+	} else {
+		g.b.WriteString(ownPrelude)
+	}
 	// functions
 	nf := r.Range(1, 4)
 	for i := 0; i < nf; i++ {
@@ -908,5 +980,5 @@ func genOwnProgram(r *prng.R, idx int, avoidAlias bool) *HProg {
 	for k := range g.roles {
 		roles = append(roles, k)
 	}
-	return &HProg{Name: fmt.Sprintf("gen-own#%d", idx), Root: "prog.ddp", Files: map[string][]byte{"prog.ddp": []byte(g.b.String())}, Roles: roles}
+	return &HProg{Name: fmt.Sprintf("gen-own#%d", idx), Root: "prog.ddp", Files: map[string][]byte{"prog.ddp": []byte(g.b.String())}, Roles: roles, SelfContained: selfContained}
 }
